@@ -315,6 +315,9 @@ func (t *Trans) execInstr(fr *Frame, in ssa.Instruction) {
 		if g, ok := x.Addr.(*ssa.Global); ok && t.P.immutable[g] {
 			return // initialisation of an immutable global (only inside init)
 		}
+		if ia, ok := x.Addr.(*ssa.IndexAddr); ok {
+			t.assertStore(fr, "slice", fr.val(x.Val), x.Val.Type(), fr.val(ia.Index), ia.Index.Type(), x.Pos())
+		}
 		fr.st = t.storeTo(fr, x.Addr, fr.val(x.Addr), elem, fr.val(x.Val), fr.st)
 	case *ssa.UnOp:
 		t.execUnOp(fr, x)
@@ -913,8 +916,28 @@ func (t *Trans) execMapUpdate(fr *Frame, x *ssa.MapUpdate) {
 	if !fr.nonNullSyntactic(x.Map) {
 		t.safe(fr, "nil-map-write", fmt.Sprintf("(not (= %s null))", m), x.Pos())
 	}
+	t.assertStore(fr, "map", v, x.Value.Type(), k, x.Key.Type(), x.Pos())
 	fr.st = t.mapStore(fr.st, x.Map.Type(), m, k, v)
 	_ = env
+}
+
+// assertStore: the assert-store clauses of the function under verification, at one store site
+func (t *Trans) assertStore(fr *Frame, kind, val string, vt types.Type, key string, kt types.Type, pos token.Pos) {
+	if t.topC == nil || fr != t.topFrame {
+		return
+	}
+	for _, as := range t.topC.AssertStore {
+		parts := strings.SplitN(as.Label, "|", 2)
+		if parts[0] != kind {
+			continue
+		}
+		sc := &SpecCtx{t: t, fr: fr, st: fr.st, old: fr.entrySt, at: fr.curBlock, names: map[string]specVal{}}
+		sc.names["$val"] = specVal{val, vt}
+		if key != "" {
+			sc.names["$key"] = specVal{key, kt}
+		}
+		t.oblige("assert", fmt.Sprintf("%s#store.%s", fr.path, labelOr(parts[1], "a")), tagsOr(as.Tags, fr.tags), fr.curReach, sc.expandBool(as.Expr), pos, "holds for the value stored into a "+kind+" element")
+	}
 }
 
 func (t *Trans) mapStore(st State, mt types.Type, m, k, v string) State {
